@@ -33,6 +33,17 @@ CHECKS = [
         "note": "trusted: ref/doc.py (comment attachment convention and source order), the renderer; bounded by history length and the attribute type alphabet",
     },
     {
+        "property_id": "C04",
+        "level": "exploration",
+        "design_ref": "DESIGN.md 4/C04",
+        "technique": "bounded-exhaustive enumeration of expression trees x renderings, evaluated by the real front end and compared with an exact-arithmetic reference evaluator bound to the precedence table by an independent parser",
+        "text": "Every expression tree of depth 1 over a 22-literal alphabet and of depth 2 (one non-literal operand per binary node) over mixed-kind, "
+        "all-rational and boolean sub-alphabets, with all 17 binary / 3 unary / attribute operators, is rendered with minimal parentheses, fully "
+        "parenthesised, without blanks and with double blanks, evaluated through @print (sub-families through constants, capacities, @extent, "
+        "@assert) and compared with ref.expr; exactly the undefined combinations must be rejected with InvalidDefinitionError.",
+        "note": "trusted: ref/expr.py semantics table; renderer/parser self-check on every tree; non-integer and >64 exponents and min/max of singleton non-rational sets are outside the compared space",
+    },
+    {
         "property_id": "C06",
         "level": "exploration",
         "design_ref": "DESIGN.md 4/C06",
